@@ -223,12 +223,13 @@ def run_engine(eng, pid, tier, outdir):
             found, note, ntried = replay.search(pid, REPO, tier, SEED, budget_s=60 if tier == "quick" else 600)
             if note and not found:
                 return {"engine": "bounded", "status": "undecided", "reason": note, "obligations": [], "assumptions": [], "bounded": True}
-            ob = {"name": "bounded stand-in: public-API replay bank for %s vs. Python integers (%d cases, operands up to %d digits, seed %d)" % (
-                pid, ntried, 520 if tier == "thorough" else 258, SEED), "status": "failed" if found else "discharged", "model": found,
+            info = dict(replay.LAST_BANK_INFO)
+            ob = {"name": "bounded stand-in: public-API replay bank for %s vs. Python integers (%d of %d cases run, operands up to %d 64-bit digits, seed %d)" % (
+                pid, ntried, info.get("cases_in_bank", 0), info.get("max_operand_64bit_digits", 0), SEED), "status": "failed" if found else "discharged", "model": found,
                 "detail": "BOUNDED, not a proof: stands in for the functions whose contracts are assumed (see trusted_base)"}
             return {"engine": "bounded", "status": "failed" if found else "pass", "reason": None, "obligations": [ob], "bounded": True,
                     "n_obligations": 1, "n_discharged": 0 if found else 1, "wall_s": round(time.time() - t0, 2),
-                    "detail": {"cases": ntried, "failing_input": found, "bound": "public API only; lengths and patterns of tools/replay.py bank(); not exhaustive"},
+                    "detail": {"cases": ntried, "bank": info, "failing_input": found, "bound": "public API only; lengths and patterns of tools/replay.py bank(); not exhaustive"},
                     "cmd": "tools/replay.py bank(%s) through replay/driver" % pid,
                     "assumptions": ["bounded stand-in: Python integer arithmetic is the oracle; the bank is finite (stated in evidence.engines[].detail)"],
                     "samples": [ob["name"]]}
